@@ -108,6 +108,25 @@ def structure(rep, F, tag):
             h = min(inner, key=lambda x: len(loops[x]))
             R.check(f.dominates(rs[w][0].bb, h) and f.dominates(h, sdc[0].bb), 'clip-order|%s%s' % (w, tag),
                     'the bound on %s is not applied between its computation (rsqrt) and its application (scale_data)' % w, f.loc())
+        # the bound of a work vector is taken from the cumulative vector it is accumulated into (work *= into cum later):
+        # clipping the row increments against the column scalings bounds nothing
+        acc = {}
+        for c in f.calls:
+            if c.callee.name == 'hadamard' and len(c.args) == 2:
+                acc.setdefault(canon(f.sym_operand(c.args[1])), set()).add(canon(f.sym_operand(c.args[0])))
+        npair = 0
+        for bi, si, st in f.assignments():
+            if st['p']['p'] and canon(f.sym_rvalue(st['rv'])).startswith('clip('):
+                tgt = canon(f.sym_place(st['p']))
+                m = re.match(r'next\(into_iter\(zip\(into_iter\(iter_mut\((.*?)\)\), iter\((.*?)\)\)\)\)@Some\.0\.0$', tgt)
+                if not m:
+                    continue
+                npair += 1
+                work, cum = m.group(1), m.group(2)
+                R.check(cum in acc.get(work, set()), 'clip-pairing|%s%s' % (work.rsplit('.', 1)[-1], tag),
+                        'the increments in %s are clipped with bounds min/max divided by %s, but they are accumulated into %s: the bound must come '
+                        'from the cumulative scaling the increment multiplies' % (work, cum, sorted(acc.get(work, []))), f.loc(st['sp']))
+        R.check(npair == 2, 'clip-pairing-sites' + tag, '%d element-wise clip loops found, expected the column and the row one' % npair, f.loc())
         # cost scaling
         # the bounds (min/cum, max/cum) must be recomputed in every iteration: the divisions by the cumulative factor
         # have to sit inside the Ruiz loop (a hoisted bound is symbolically identical but stale)
